@@ -2093,4 +2093,533 @@ theorem indptr2_ofRows (RA : List (List (Nat × Rat))) (lines : List Nat) (RB : 
     simp [hj, hb]
   · simp [hj, lookup_zip_of_not_mem j lines RB hj]
 
+/-! ### merge_matrices: removing the old entries -/
+
+theorem setLines_eq_map {β} (v : β) : ∀ (lines : List Nat) (R : List (List β)), (∀ l ∈ lines, l < R.length) →
+    setLines v R lines = (List.range R.length).map (fun j =>
+      if j ∈ lines then List.replicate (R.getD j []).length v else R.getD j []) := by
+  intro lines
+  induction lines with
+  | nil =>
+    intro R _
+    simp only [setLines, List.not_mem_nil, if_false]
+    have := map_eq_range_map (fun (r : List β) => r) R []
+    simpa using this
+  | cons l lines ih =>
+    intro R hlt
+    have hl : l < R.length := hlt l List.mem_cons_self
+    rw [setLines, ih _ (by intro k hk; rw [List.length_set]; exact hlt k (List.mem_cons_of_mem _ hk)), List.length_set]
+    apply List.map_congr_left
+    intro j hj
+    have hj' : j < R.length := List.mem_range.mp hj
+    by_cases hjl : j = l
+    · subst hjl
+      have e : (R.set j (List.replicate (R.getD j []).length v)).getD j [] = List.replicate (R.getD j []).length v := by
+        simp [List.getD_eq_getElem?_getD, hj']
+      simp only [e, List.mem_cons, true_or, if_true, List.length_replicate, ite_self]
+    · have e : (R.set l (List.replicate (R.getD l []).length v)).getD j [] = R.getD j [] := by
+        simp only [List.getD_eq_getElem?_getD]
+        rw [List.getElem?_set_ne (fun e => hjl e.symm)]
+      simp only [e, List.mem_cons, hjl, false_or]
+
+theorem maskSel_map {β γ} (f : β → γ) (l : List β) (m : List Bool) : maskSel (l.map f) m = (maskSel l m).map f := by
+  induction l generalizing m with
+  | nil => cases m <;> rfl
+  | cons x l ih => cases m with
+    | nil => rfl
+    | cons b m => cases b <;> simp [maskSel, ih]
+
+theorem maskSel_append {β} (l1 l2 : List β) (m1 m2 : List Bool) (h : l1.length = m1.length) :
+    maskSel (l1 ++ l2) (m1 ++ m2) = maskSel l1 m1 ++ maskSel l2 m2 := by
+  induction l1 generalizing m1 with
+  | nil => cases m1 with
+    | nil => rfl
+    | cons _ _ => simp at h
+  | cons x l1 ih => cases m1 with
+    | nil => simp at h
+    | cons b m1 =>
+      have := ih m1 (by simpa using h)
+      cases b <;> simp [maskSel, this]
+
+theorem maskSel_replicate_true {β} (l : List β) : maskSel l (List.replicate l.length true) = l := by
+  induction l with
+  | nil => rfl
+  | cons x l ih => simp [List.replicate_succ, maskSel, ih]
+
+theorem maskSel_replicate_false {β} (l : List β) : maskSel l (List.replicate l.length false) = [] := by
+  induction l with
+  | nil => rfl
+  | cons x l ih => simp [List.replicate_succ, maskSel, ih]
+
+theorem maskSel_rows {β} (n : Nat) (r : Nat → List β) (m : Nat → List Bool) (h : ∀ j, (r j).length = (m j).length) :
+    maskSel ((List.range n).map r).flatten ((List.range n).map m).flatten
+      = ((List.range n).map (fun j => maskSel (r j) (m j))).flatten := by
+  induction n with
+  | zero => rfl
+  | succ n ih =>
+    simp only [List.range_succ, List.map_append, List.flatten_append, List.map_cons, List.map_nil,
+      List.flatten_cons, List.flatten_nil, List.append_nil]
+    rw [maskSel_append _ _ _ _ (by
+      simp only [List.length_flatten, List.map_map]
+      congr 1
+      apply List.map_congr_left
+      intro j _
+      exact h j), ih]
+
+theorem replicate_flatten_length {β} (R : List (List β)) :
+    List.replicate R.flatten.length true = (R.map (fun r => List.replicate r.length true)).flatten := by
+  induction R with
+  | nil => rfl
+  | cons r R ih =>
+    simp only [List.flatten_cons, List.length_append, List.map_cons, ← ih, List.replicate_append_replicate]
+
+/-- (e) the kept storage entries are the rows of `A` outside the replaced lines -/
+theorem kept_ofRows {γ} (nc : Nat) (RA : List (List (Nat × Rat))) (f : Nat × Rat → γ) (lines : List Nat)
+    (hlt : ∀ l ∈ lines, l < RA.length) :
+    maskSel (RA.flatten.map f)
+        (scatterConst (List.replicate (RA.flatten.map f).length true) ((ofRows nc RA).lineIdx lines) false)
+      = (rows1 RA lines).flatten.map f := by
+  rw [lineIdx_ofRows nc RA lines hlt, List.length_map, replicate_flatten_length]
+  have hpos : lines.flatMap (linePos RA) = lines.flatMap (linePos (RA.map (fun r => List.replicate r.length true))) := by
+    apply flatMap_congr'
+    intro i _
+    exact linePos_congr _ _ (by simp [List.map_map, Function.comp_def]) i
+  rw [hpos, scatterConst_lines false lines _ (by simpa using hlt), setLines_eq_map false lines _ (by simpa using hlt),
+    maskSel_map]
+  congr 1
+  have hRA : RA = (List.range RA.length).map (fun j => RA.getD j []) := by
+    have := map_eq_range_map (fun (r : List (Nat × Rat)) => r) RA []
+    simpa using this
+  conv => lhs; arg 1; rw [hRA]
+  simp only [List.length_map]
+  rw [maskSel_rows]
+  · simp only [rows1]
+    congr 1
+    apply List.map_congr_left
+    intro j hj
+    have hj' : j < RA.length := List.mem_range.mp hj
+    have e : (RA.map (fun r => List.replicate r.length true)).getD j [] = List.replicate (RA.getD j []).length true := by
+      simp [List.getD_eq_getElem?_getD, hj']
+    rw [e]
+    by_cases hjl : j ∈ lines
+    · simp only [hjl, if_true, List.length_replicate, maskSel_replicate_false]
+    · simp only [hjl, if_false, maskSel_replicate_true]
+  · intro j
+    by_cases hj' : j < RA.length
+    · have e : (RA.map (fun r => List.replicate r.length true)).getD j [] = List.replicate (RA.getD j []).length true := by
+        simp [List.getD_eq_getElem?_getD, hj']
+      rw [e]
+      split <;> simp
+    · have e : (RA.map (fun r => List.replicate r.length true)).getD j [] = [] := by
+        simp [List.getD_eq_getElem?_getD, Nat.not_lt.mp hj']
+      have e2 : RA.getD j [] = [] := by simp [List.getD_eq_getElem?_getD, Nat.not_lt.mp hj']
+      rw [e, e2]
+      split <;> simp
+
+/-! ### merge_matrices: inserting the new entries -/
+
+theorem pairsFrom_range' {β} (P : Nat → Nat) (g : Nat → List β × List β) :
+    ∀ (n j : Nat), (∀ k, j ≤ k → k < j + n → P (k + 1) = P k + (g k).2.length) →
+      pairsFrom (P j) ((List.range' j n).map g)
+        = (List.range' j n).flatMap (fun k => (g k).1.map (fun v => (P k, v))) := by
+  intro n
+  induction n with
+  | zero => intro j _; rfl
+  | succ n ih =>
+    intro j hP
+    rw [List.range'_succ, List.map_cons, List.flatMap_cons]
+    have : pairsFrom (P j) (g j :: (List.range' (j + 1) n).map g)
+        = (g j).1.map (fun v => (P j, v)) ++ pairsFrom (P j + (g j).2.length) ((List.range' (j + 1) n).map g) := by
+      cases hg : g j with
+      | mk ins a => rfl
+    rw [this, ← hP j (Nat.le_refl _) (by omega), ih (j + 1) (by intro k h1 h2; exact hP k (by omega) (by omega))]
+
+theorem flatten_zipWith_eq_flatMap_zip {α β γ} (f : α → β → List γ) (l1 : List α) (l2 : List β) :
+    (List.zipWith f l1 l2).flatten = (l1.zip l2).flatMap (fun p => f p.1 p.2) := by
+  induction l1 generalizing l2 with
+  | nil => rfl
+  | cons a l1 ih => cases l2 with
+    | nil => rfl
+    | cons b l2 => simp only [List.zipWith_cons_cons, List.flatten_cons, List.zip_cons_cons, List.flatMap_cons, ih]
+
+/-- (i) `np.insert` of the rows of `B` at the starts of the emptied lines rebuilds the merged rows -/
+theorem inserted_ofRows {γ} (RA : List (List (Nat × Rat))) (lines : List Nat) (RB : List (List (Nat × Rat)))
+    (f : Nat × Rat → γ) (hs : lines.Pairwise (· < ·)) (hlt : ∀ l ∈ lines, l < RA.length)
+    (hlen : lines.length = RB.length) :
+    npInsert ((rows1 RA lines).flatten.map f)
+        (repeatSpec (lines.map (fun l => (((ptrsFrom 0 (rows1 RA lines)).map (fun (p : Nat) => (p : Int))).getD l 0).toNat))
+          ((RB.map (fun r => (r.length : Int))).map Int.toNat))
+        (RB.flatten.map f)
+      = (rows2 RA lines RB).flatten.map f := by
+  let n := RA.length
+  let P : Nat → Nat := fun k => (ptrsFrom 0 (rows1 RA lines)).getD k 0
+  let g : Nat → List γ × List γ := fun j =>
+    ((((lines.zip RB).lookup j).getD []).map f, (if j ∈ lines then [] else RA.getD j []).map f)
+  have hP : ∀ l, (((ptrsFrom 0 (rows1 RA lines)).map (fun (p : Nat) => (p : Int))).getD l 0).toNat = P l := by
+    intro l
+    have := getD_map (fun (p : Nat) => (p : Int)) (ptrsFrom 0 (rows1 RA lines)) l 0
+    simp only [Int.natCast_zero] at this
+    rw [this]; simp [P]
+  have hreps : (RB.map (fun r => (r.length : Int))).map Int.toNat = (RB.map (List.map f)).map List.length := by
+    simp [List.map_map, Function.comp_def]
+  have hvals : RB.flatten.map f = (RB.map (List.map f)).flatten := by rw [List.map_flatten]
+  have hPsucc : ∀ k, 0 ≤ k → k < 0 + n → P (k + 1) = P k + (g k).2.length := by
+    intro k _ hk
+    have hk' : k < (rows1 RA lines).length := by rw [length_rows1]; omega
+    obtain ⟨h1, _⟩ := ptr_succ_ofRows 0 (rows1 RA lines) k hk'
+    simp only [ofRows] at h1
+    simp only [P, g, h1, List.length_map]
+    congr 1
+    simp only [rows1, List.getD_eq_getElem?_getD]
+    rw [List.getElem?_map, List.getElem?_range (by omega : k < RA.length)]
+    rfl
+  simp only [hP, hreps, hvals, npInsert]
+  rw [zip_repeatSpec_flatten _ _ (by simpa using hlen)]
+  -- the pairs, row by row
+  have hpairs : (List.zipWith (fun p r => r.map (fun v => (p, v))) (lines.map P) (RB.map (List.map f))).flatten
+      = pairsFrom 0 ((List.range n).map g) := by
+    have h0 : P 0 = 0 := by simp only [P]; rw [ptrsFrom_eq_cons]; rfl
+    have hpr := pairsFrom_range' P g n 0 hPsucc
+    rw [h0] at hpr
+    rw [List.range_eq_range', hpr]
+    have := reindex_sorted (fun k (o : Option (List (Nat × Rat))) => ((o.getD []).map f).map (fun v => (P k, v)))
+      (by intro j; rfl) n 0 lines RB hlen hs (by intro l hl; have := hlt l hl; omega)
+    simp only [g]
+    rw [this, List.zipWith_map, flatten_zipWith_eq_flatMap_zip]
+    rfl
+  rw [hpairs]
+  have hins := npInsert_rows ((List.range n).map g) 0 [] [] (by intro q hq; cases hq)
+  simp only [List.map_nil, List.append_nil, List.nil_append, List.map_map] at hins
+  have ha : (rows1 RA lines).flatten.map f = ((List.range n).map ((fun p => p.2) ∘ g)).flatten := by
+    simp only [rows1, List.map_flatten, List.map_map]
+    rfl
+  rw [ha, hins]
+  simp only [rows2, List.map_flatten, List.map_map]
+  congr 1
+  apply List.map_congr_left
+  intro j _
+  simp only [Function.comp, g]
+  by_cases hj : j ∈ lines
+  · obtain ⟨b, hb⟩ := lookup_isSome_of_mem j lines RB hj hlen
+    simp [hj, hb]
+  · simp [hj, lookup_zip_of_not_mem j lines RB hj]
+
+theorem mergeSorted_ofRows (nc : Nat) (RA RB : List (List (Nat × Rat))) (lines : List Nat)
+    (hs : lines.Pairwise (· < ·)) (hlt : ∀ l ∈ lines, l < RA.length) (hlen : lines.length = RB.length) :
+    mergeSorted (ofRows nc RA) (ofRows nc RB) lines = ofRows nc (rows2 RA lines RB) := by
+  have hnd : lines.Nodup := hs.imp (fun h => Nat.ne_of_lt h)
+  simp only [mergeSorted]
+  rw [removed_ofRows nc RA lines hlt, indptr1_ofRows nc RA lines hnd hlt, rep_ofRows nc RB]
+  rw [indptr2_ofRows RA lines RB hnd hlt hlen]
+  have hk1 := kept_ofRows nc RA (·.1) lines hlt
+  have hk2 := kept_ofRows nc RA (·.2) lines hlt
+  have hi1 := inserted_ofRows RA lines RB (·.1) hs hlt hlen
+  have hi2 := inserted_ofRows RA lines RB (·.2) hs hlt hlen
+  simp only [ofRows, List.length_map] at hk1 hk2 hi1 hi2 ⊢
+  rw [hk1, hk2, hi1, hi2, length_rows2]
+
+/-! ### merge_matrices: row replacement, unsorted lines -/
+
+theorem replaceRows_eq_rows2 : ∀ (lines : List Nat) (RA RB : List (List (Nat × Rat))), lines.Nodup →
+    (∀ l ∈ lines, l < RA.length) → lines.length = RB.length →
+    replaceRows RA lines RB = rows2 RA lines RB := by
+  intro lines
+  induction lines with
+  | nil =>
+    intro RA RB _ _ hlen
+    cases RB with
+    | nil =>
+      simp only [replaceRows, rows2, List.zip_nil_left, List.lookup_nil, Option.getD_none]
+      have := map_eq_range_map (fun (r : List (Nat × Rat)) => r) RA []
+      simpa using this
+    | cons _ _ => simp at hlen
+  | cons l lines ih =>
+    intro RA RB hnd hlt hlen
+    cases RB with
+    | nil => simp at hlen
+    | cons b RB =>
+      have hnd' := List.nodup_cons.mp hnd
+      have hl : l < RA.length := hlt l List.mem_cons_self
+      rw [replaceRows, ih (RA.set l b) RB hnd'.2 (by
+        intro k hk; rw [List.length_set]; exact hlt k (List.mem_cons_of_mem _ hk)) (by simpa using hlen)]
+      simp only [rows2, List.length_set]
+      apply List.map_congr_left
+      intro j hj
+      have hj' : j < RA.length := List.mem_range.mp hj
+      simp only [List.zip_cons_cons, List.lookup_cons]
+      by_cases hjl : j = l
+      · subst hjl
+        rw [lookup_zip_of_not_mem j lines RB hnd'.1]
+        simp [List.getD_eq_getElem?_getD, hj']
+      · have : (j == l) = false := by simpa using hjl
+        rw [this]
+        simp only [List.getD_eq_getElem?_getD]
+        rw [List.getElem?_set_ne (fun e => hjl e.symm)]
+
+theorem replaceRows_map {β γ} (f : List β → List γ) : ∀ (lines : List Nat) (M N : List (List β)),
+    (replaceRows M lines N).map f = replaceRows (M.map f) lines (N.map f) := by
+  intro lines
+  induction lines with
+  | nil => intro M N; cases N <;> rfl
+  | cons l lines ih =>
+    intro M N
+    cases N with
+    | nil => rfl
+    | cons b N => simp only [replaceRows, List.map_cons, ih, List.map_set]
+
+/-- lookups agree on permuted association lists with distinct keys -/
+theorem lookup_perm {β} (j : Nat) {l1 l2 : List (Nat × β)} (hp : l1.Perm l2) (hnd : (l1.map (·.1)).Nodup) :
+    l1.lookup j = l2.lookup j := by
+  induction hp with
+  | nil => rfl
+  | cons x _ ih =>
+    obtain ⟨k, v⟩ := x
+    simp only [List.map_cons, List.nodup_cons] at hnd
+    simp only [List.lookup_cons]
+    cases (j == k) with
+    | true => rfl
+    | false => exact ih hnd.2
+  | swap x y l =>
+    obtain ⟨k1, v1⟩ := x
+    obtain ⟨k2, v2⟩ := y
+    simp only [List.map_cons, List.nodup_cons, List.mem_cons, not_or] at hnd
+    simp only [List.lookup_cons]
+    by_cases h1 : j = k1
+    · by_cases h2 : j = k2
+      · exact absurd (h1.symm.trans h2).symm hnd.1.1
+      · have e1 : (j == k1) = true := by simpa using h1
+        have e2 : (j == k2) = false := by simpa using h2
+        simp [e1, e2]
+    · have e1 : (j == k1) = false := by simpa using h1
+      simp [e1]
+  | trans h12 _ ih1 ih2 =>
+    have hnd2 := (h12.map (·.1)).nodup_iff.mp hnd
+    rw [ih1 hnd, ih2 hnd2]
+
+theorem perm_insertKey (p : Nat × Nat) (l : List (Nat × Nat)) : (insertKey p l).Perm (p :: l) := by
+  induction l with
+  | nil => exact List.Perm.refl _
+  | cons q l ih =>
+    simp only [insertKey]
+    split
+    · exact List.Perm.refl _
+    · exact (List.Perm.cons q ih).trans (List.Perm.swap p q l)
+
+theorem perm_sortKeys (l : List (Nat × Nat)) : (sortKeys l).Perm l := by
+  induction l with
+  | nil => exact List.Perm.refl _
+  | cons p l ih => exact (perm_insertKey p (sortKeys l)).trans (List.Perm.cons p ih)
+
+theorem sorted_insertKey (p : Nat × Nat) (l : List (Nat × Nat)) (h : l.Pairwise (fun a b => a.1 ≤ b.1)) :
+    (insertKey p l).Pairwise (fun a b => a.1 ≤ b.1) := by
+  induction l with
+  | nil => simp [insertKey]
+  | cons q l ih =>
+    have h' := List.pairwise_cons.mp h
+    simp only [insertKey]
+    split
+    · next hpq =>
+      refine List.pairwise_cons.mpr ⟨?_, h⟩
+      intro a ha
+      rcases List.mem_cons.mp ha with rfl | ha
+      · exact hpq
+      · exact Nat.le_trans hpq (h'.1 a ha)
+    · next hpq =>
+      refine List.pairwise_cons.mpr ⟨?_, ih h'.2⟩
+      intro a ha
+      have := (perm_insertKey p l).mem_iff.mp ha
+      rcases List.mem_cons.mp this with rfl | ha
+      · omega
+      · exact h'.1 a ha
+
+theorem sorted_sortKeys (l : List (Nat × Nat)) : (sortKeys l).Pairwise (fun a b => a.1 ≤ b.1) := by
+  induction l with
+  | nil => exact List.Pairwise.nil
+  | cons p l ih => exact sorted_insertKey p _ ih
+
+theorem enumFrom_fst {α} (k : Nat) (l : List α) : (enumFrom k l).map (·.1) = l := by
+  induction l generalizing k with
+  | nil => rfl
+  | cons a l ih => simp [enumFrom, ih]
+
+theorem enumFrom_spec {α} [Inhabited α] (k : Nat) (l : List α) :
+    ∀ p ∈ enumFrom k l, k ≤ p.2 ∧ p.2 < k + l.length ∧ l.getD (p.2 - k) default = p.1 := by
+  induction l generalizing k with
+  | nil => intro p hp; cases hp
+  | cons a l ih =>
+    intro p hp
+    simp only [enumFrom, List.mem_cons] at hp
+    rcases hp with rfl | hp
+    · simp
+    · obtain ⟨h1, h2, h3⟩ := ih (k + 1) p hp
+      refine ⟨by omega, by simp only [List.length_cons]; omega, ?_⟩
+      have : p.2 - k = (p.2 - (k + 1)) + 1 := by omega
+      rw [this, List.getD_cons_succ, h3]
+
+theorem hasDescent_false_sorted : ∀ (l : List Nat), hasDescent l = false → l.Pairwise (· ≤ ·) := by
+  intro l
+  induction l with
+  | nil => intro _; exact List.Pairwise.nil
+  | cons a l ih =>
+    intro h
+    cases l with
+    | nil => simp
+    | cons b l =>
+      simp only [hasDescent, Bool.or_eq_false_iff, decide_eq_false_iff_not, Nat.not_lt] at h
+      have hb := ih h.2
+      refine List.pairwise_cons.mpr ⟨?_, hb⟩
+      intro c hc
+      rcases List.mem_cons.mp hc with rfl | hc
+      · exact h.1
+      · exact Nat.le_trans h.1 ((List.pairwise_cons.mp hb).1 c hc)
+
+theorem strict_of_sorted_nodup (l : List Nat) (h1 : l.Pairwise (· ≤ ·)) (h2 : l.Nodup) : l.Pairwise (· < ·) := by
+  have := h1.and h2
+  exact this.imp (fun h => Nat.lt_of_le_of_ne h.1 h.2)
+
+theorem enumFrom_zip {β} (RB : List (List β)) : ∀ (l : List Nat) (k : Nat), l.length + k = RB.length →
+    (enumFrom k l).map (fun p => (p.1, RB.getD p.2 [])) = l.zip (RB.drop k) := by
+  intro l
+  induction l with
+  | nil => intro k _; rfl
+  | cons a l ih =>
+    intro k h
+    have hk : k < RB.length := by simp only [List.length_cons] at h; omega
+    have hd : RB.drop k = RB.getD k [] :: RB.drop (k + 1) := by
+      rw [List.drop_eq_getElem_cons hk]
+      simp [List.getD_eq_getElem?_getD, hk]
+    rw [hd]
+    simp only [enumFrom, List.map_cons, List.zip_cons_cons]
+    rw [ih (k + 1) (by simp only [List.length_cons] at h; omega)]
+
+theorem mergeLines_ofRows (nc : Nat) (RA RB : List (List (Nat × Rat))) (lines : List Nat)
+    (hnd : lines.Nodup) (hlt : ∀ l ∈ lines, l < RA.length) (hlen : lines.length = RB.length) :
+    mergeLines (ofRows nc RA) (ofRows nc RB) lines = ofRows nc (rows2 RA lines RB) := by
+  unfold mergeLines
+  by_cases hd : hasDescent lines = true
+  · rw [if_pos hd]
+    let S := sortKeys (enumFrom 0 lines)
+    have hperm : S.Perm (enumFrom 0 lines) := perm_sortKeys _
+    have hspec : ∀ p ∈ S, p.2 < lines.length ∧ lines.getD p.2 default = p.1 := by
+      intro p hp
+      have := enumFrom_spec 0 lines p (hperm.mem_iff.mp hp)
+      simp only [Nat.sub_zero, Nat.zero_add] at this
+      exact ⟨this.2.1, this.2.2⟩
+    have hs : argsort lines = S.map (·.2) := rfl
+    have hg : gather lines (argsort lines) = S.map (·.1) := by
+      rw [hs]
+      simp only [gather, List.map_map]
+      apply List.map_congr_left
+      intro p hp
+      exact (hspec p hp).2
+    have hfst : (S.map (·.1)).Perm lines := by
+      have := hperm.map (·.1)
+      rwa [enumFrom_fst] at this
+    have hnd' : (S.map (·.1)).Nodup := hfst.nodup_iff.mpr hnd
+    have hsorted : (S.map (·.1)).Pairwise (· < ·) := by
+      apply strict_of_sorted_nodup _ _ hnd'
+      rw [List.pairwise_map]
+      exact sorted_sortKeys _
+    have hslice : sliceLines (ofRows nc RB) (argsort lines) = ofRows nc ((argsort lines).map (fun i => RB.getD i [])) := by
+      apply sliceLines_ofRows
+      intro i hi
+      rw [hs] at hi
+      obtain ⟨p, hp, rfl⟩ := List.mem_map.mp hi
+      rw [← hlen]; exact (hspec p hp).1
+    show mergeSorted (ofRows nc RA) (sliceLines (ofRows nc RB) (argsort lines)) (gather lines (argsort lines)) = _
+    rw [hslice, hg, mergeSorted_ofRows nc RA _ _ hsorted (by
+      intro l hl; exact hlt l (hfst.mem_iff.mp hl)) (by simp [hs])]
+    congr 1
+    simp only [rows2]
+    apply List.map_congr_left
+    intro j _
+    congr 1
+    have hz1 : (S.map (·.1)).zip ((argsort lines).map (fun i => RB.getD i []))
+        = S.map (fun p => (p.1, RB.getD p.2 [])) := by
+      rw [hs, List.map_map]
+      clear hperm hspec hg hfst hnd' hsorted hslice hs
+      induction S with
+      | nil => rfl
+      | cons p S ih => simp only [List.map_cons, List.zip_cons_cons, ih, Function.comp]
+    have hz2 : lines.zip RB = (enumFrom 0 lines).map (fun p => (p.1, RB.getD p.2 [])) := by
+      rw [enumFrom_zip RB lines 0 (by omega)]; rfl
+    rw [hz1, hz2]
+    apply lookup_perm j (hperm.map _)
+    rw [List.map_map]
+    exact hnd'
+  · rw [if_neg hd]
+    have hd' : hasDescent lines = false := by simpa using hd
+    exact mergeSorted_ofRows nc RA RB lines
+      (strict_of_sorted_nodup _ (hasDescent_false_sorted _ hd') hnd) hlt hlen
+
+theorem lookup_some_mem {β} (j : Nat) (b : β) (l : List (Nat × β)) (h : l.lookup j = some b) : (j, b) ∈ l := by
+  induction l with
+  | nil => simp at h
+  | cons p l ih =>
+    obtain ⟨k, v⟩ := p
+    simp only [List.lookup_cons] at h
+    by_cases hjk : j = k
+    · subst hjk
+      simp only [beq_self_eq_true, Option.some.injEq] at h
+      subst h
+      exact List.mem_cons_self
+    · have : (j == k) = false := by simpa using hjk
+      rw [this] at h
+      exact List.mem_cons_of_mem _ (ih h)
+
+theorem RowsOk_rows2 (nc : Nat) (RA RB : List (List (Nat × Rat))) (lines : List Nat)
+    (hA : RowsOk nc RA) (hB : RowsOk nc RB) : RowsOk nc (rows2 RA lines RB) := by
+  intro r hr
+  simp only [rows2] at hr
+  obtain ⟨j, hj, rfl⟩ := List.mem_map.mp hr
+  have hj' : j < RA.length := List.mem_range.mp hj
+  cases hlk : (lines.zip RB).lookup j with
+  | none =>
+    simp only [Option.getD_none]
+    apply hA
+    simp only [List.getD_eq_getElem?_getD, List.getElem?_eq_getElem hj', Option.getD_some]
+    exact List.getElem_mem hj'
+  | some b =>
+    simp only [Option.getD_some]
+    apply hB
+    have : (j, b) ∈ lines.zip RB := lookup_some_mem j b _ hlk
+    exact (List.of_mem_zip this).2
+
+theorem replaceRows_eq_map {β} : ∀ (lines : List Nat) (RA RB : List (List β)), lines.Nodup →
+    (∀ l ∈ lines, l < RA.length) → lines.length = RB.length →
+    replaceRows RA lines RB
+      = (List.range RA.length).map (fun j => ((lines.zip RB).lookup j).getD (RA.getD j [])) := by
+  intro lines
+  induction lines with
+  | nil =>
+    intro RA RB _ _ hlen
+    cases RB with
+    | nil =>
+      simp only [replaceRows, List.zip_nil_left, List.lookup_nil, Option.getD_none]
+      have := map_eq_range_map (fun (r : List β) => r) RA []
+      simpa using this
+    | cons _ _ => simp at hlen
+  | cons l lines ih =>
+    intro RA RB hnd hlt hlen
+    cases RB with
+    | nil => simp at hlen
+    | cons b RB =>
+      have hnd' := List.nodup_cons.mp hnd
+      have hl : l < RA.length := hlt l List.mem_cons_self
+      rw [replaceRows, ih (RA.set l b) RB hnd'.2 (by
+        intro k hk; rw [List.length_set]; exact hlt k (List.mem_cons_of_mem _ hk)) (by simpa using hlen)]
+      simp only [List.length_set]
+      apply List.map_congr_left
+      intro j hj
+      have hj' : j < RA.length := List.mem_range.mp hj
+      simp only [List.zip_cons_cons, List.lookup_cons]
+      by_cases hjl : j = l
+      · subst hjl
+        rw [lookup_zip_of_not_mem j lines RB hnd'.1]
+        simp [List.getD_eq_getElem?_getD, hj']
+      · have : (j == l) = false := by simpa using hjl
+        rw [this]
+        simp only [List.getD_eq_getElem?_getD]
+        rw [List.getElem?_set_ne (fun e => hjl e.symm)]
+
 end PorepyVerif.C35
